@@ -20,6 +20,9 @@ RULE = (
     "must be explained by an input member or be a declared property; non-trivial = accepted value "
     "with a container of >=2 members or depth >=2; distinct = canon(schema/recipe, value)"
 )
+RULE += (
+    ' Parsed-mode schemas go through the documented loader a quarter of the time.'
+)
 ASSUMPTIONS = [
     "for untyped (dict) results the governing element is not known to the walker: a member may be found under its JSON name or under the Python name of any property with that JSON name in the tree",
     "values of declared-but-omitted properties are C05's subject (only their presence is tolerated here)",
@@ -51,7 +54,7 @@ def members(v):
 def cases(draw):
     if draw(st.booleans()):
         schema = draw(sg.schemas(SCFG))
-        case = {"mode": "parsed", "schema": schema}
+        case = {"mode": "parsed", "schema": schema, "pipeline": draw(st.sampled_from(observe.PIPELINES))}
         names = cc.renamed_pynames_schema(schema)
     else:
         recipe = draw(R.recipes(RCFG))
@@ -75,7 +78,7 @@ def cases(draw):
 
 def build(case):
     if case["mode"] == "parsed":
-        parsed = observe.safe_parse(case["schema"])
+        parsed = observe.safe_parse(case["schema"], case.get("pipeline"))
         return parsed[1] if parsed[0] == "ok" else None
     return R.build(case["recipe"])
 
